@@ -294,6 +294,41 @@ def g_js_attach(rng):
     return ops
 
 
+_RENDER_STATE = {"n": 0}
+RENDER_SWEEP = list(range(120, 136)) + list(range(250, 261)) + list(range(505, 516))
+
+
+def g_js_render(rng):
+    """json_render writes into a dynamic MBuf byte by byte; the buffer grows (libc realloc, fault
+    point) at output offsets 128, 256, 512.  Strings with characters that are rendered as a
+    six-byte \\uXXXX escape (control characters other than \\b \\f \\n \\r \\t, U+2028/9) or a two-byte
+    escape are placed behind a filler whose length is swept over 120..135, 250..260, 505..515
+    (consecutive scripts rotate through the sweep), so that EACH byte of the escape lands on each
+    growth boundary in turn.  A render that reports success under a fault must produce the same
+    bytes as the fault-free render (compared by the reference run)."""
+    st = _RENDER_STATE
+    ops = ["js new %d" % rng.choice([0, 3000])]
+    slot = 0
+    for j in range(7):
+        L = RENDER_SWEEP[(st["n"] * 7 + j) % len(RENDER_SWEEP)]
+        ctrl = rng.choice(["\u0001", "\u001f", "\u000b", "\u0010", "\u2028", "\u2029", "\n", "\"", "\\"])
+        text = "a" * L + ctrl + "tail" + rng.choice(["", "\u0002x", "\t"])
+        kind = rng.below(3)
+        slot += 1
+        if kind == 0:
+            doc = json.dumps(text)
+        elif kind == 1:
+            doc = json.dumps([text, 1])
+            L -= 1
+        else:
+            doc = json.dumps({text: None}, separators=(",", ":"))
+            L -= 1
+        ops.append("js parse %d %s" % (slot, H(doc.encode("utf-8"))))
+        ops.append("js render %d" % slot)
+    st["n"] += 1
+    return ops + ["js free"]
+
+
 def g_js_index(rng):
     """indexed access to lists: json_list_get_value builds an index array lazily (one allocation
     from the context pool, only for lists of more than 10 elements, again after every append).
@@ -734,6 +769,7 @@ FAMILIES = {
     "js-build": (lambda r: g_js_build(r), "h", {"prefix": "js ", "strict_live": False, "live_exact": False}),
     "js-mixed": (lambda r: g_js_build(r, True), "h", {"prefix": "js ", "strict_live": False, "live_exact": False}),
     "js-attach": (g_js_attach, "h", {"prefix": "js ", "strict_live": False, "live_exact": False}),
+    "js-render": (g_js_render, "h", {"prefix": "js ", "strict_live": False, "live_exact": False}),
     "js-index": (g_js_index, "h", {"prefix": "js ", "strict_live": False, "live_exact": False}),
     "ta-limit": (g_ta_limit, "h", {"prefix": "ta ", "strict_live": True, "live_exact": True}),
     "ta-tree": (lambda r: g_ta(r, "tree"), "h", {"prefix": "ta ", "strict_live": True, "live_exact": True}),
